@@ -300,6 +300,9 @@ func (g *Gen) applyContract(st *State, v ssa.Value, ct *Contract, fn *ssa.Functi
 	if ct.ModAll {
 		g.havocAll(st)
 	} else {
+		if ct.ModHeap {
+			g.havocHeap(st)
+		}
 		// callee may allocate (also a "pure" one: pure = no effect on pre-existing state)
 		frBefore := g.frontier(st)
 		g.bumpFrontier(st)
@@ -368,6 +371,7 @@ func (g *Gen) havocLocation(st *State, env *Env, loc string) error {
 				elemSort := strings.TrimSuffix(strings.TrimPrefix(g.sc.tagSort[tag], "(Array Ref "), ")")
 				nv := g.sc.fresh("hvm", elemSort)
 				st.mem[tag] = g.sc.define("m_"+tag, g.sc.tagSort[tag], fmt.Sprintf("(store %s %s %s)", cur, v.t, nv))
+				g.frameWrite(st, tag, fmt.Sprintf("(rb %s)", v.t), cur, st.mem[tag])
 				if tag == l {
 					g.sc.emit("(assert (>= %s 0))", nv)
 				}
@@ -381,6 +385,7 @@ func (g *Gen) havocLocation(st *State, env *Env, loc string) error {
 				n := g.sc.fresh("hve_"+tag, g.sc.tagSort[tag])
 				g.sc.emit("(assert (forall ((r Ref)) (! (=> (not (= (rb r) (rb (sarr %s)))) (= (select %s r) (select %s r))) :pattern ((select %s r)))))", v.t, n, cur, n)
 				st.mem[tag] = n
+				g.frameWrite(st, tag, fmt.Sprintf("(rb (sarr %s))", v.t), cur, n)
 			}
 			return nil
 		case *types.Pointer:
@@ -391,6 +396,7 @@ func (g *Gen) havocLocation(st *State, env *Env, loc string) error {
 				n := g.sc.fresh("hvp_"+tag, g.sc.tagSort[tag])
 				g.sc.emit("(assert (forall ((r Ref)) (! (=> (not (= (rb r) (rb %s))) (= (select %s r) (select %s r))) :pattern ((select %s r)))))", v.t, n, cur, n)
 				st.mem[tag] = n
+				g.frameWrite(st, tag, fmt.Sprintf("(rb %s)", v.t), cur, n)
 			}
 			return nil
 		}
@@ -476,7 +482,7 @@ func (g *Gen) calleeModTags(ci ssa.CallInstruction) (map[string]bool, bool) {
 		}
 		return tags, true
 	}
-	if ct.ModAll {
+	if ct.ModAll || ct.ModHeap {
 		return tags, true
 	}
 	if ct.Pure {
@@ -712,6 +718,12 @@ func (g *Gen) frameObligation() {
 			now := g.sc.lookup(rp.st, tag)
 			if now == was {
 				continue
+			}
+			if !strings.HasPrefix(tag, "G!") && g.ct.ModHeap {
+				continue
+			}
+			if !strings.HasPrefix(tag, "G!") && g.sc.oldBase(now) == g.sc.oldBase(was) {
+				continue // every step from entry to here only wrote objects allocated after entry (tracked provenance)
 			}
 			if strings.HasPrefix(tag, "G!") {
 				if g.modifiesGhost(tag[2:]) {
